@@ -523,6 +523,11 @@ func (e *Engine) assignTo(st *State, lhs ast.Expr, v *Val, pos token.Pos) []*Sta
 		}
 		if _, isVar := obj.(*types.Var); isVar && obj.Parent() == obj.Pkg().Scope() {
 			loc := "g:" + obj.Name()
+			if v != nil && v.Kind == KAlloc && v.Path == "" && v.Type != nil {
+				if _, isMap := v.Type.Underlying().(*types.Map); isMap {
+					v.Path = loc // a fresh map installed in a package variable is that variable's map
+				}
+			}
 			st.heap[loc] = v
 			st.written[loc] = true
 			e.emit(st, &Event{Kind: EvFieldWrite, Pos: pos, Path: loc, Obj: obj, Value: v, Note: "global"})
